@@ -61,6 +61,10 @@ def comm_of(pid):
     return COMMS[(pid * 7 + 3) % len(COMMS)]
 
 
+def state_of(pid):
+    return [b"S", b"R", b"Z", b"D", b"S", b"I", b"T"][pid % 7]      # zombies are listed processes too
+
+
 def render_stat(pid, comm, state, ppid, pre, start, post):
     return b"%d (%s) %s" % (pid, comm, b" ".join([state, b"%d" % ppid] + list(pre) + [b"%d" % start] + list(post))) + b"\n"
 
@@ -91,8 +95,20 @@ class Impl:
                 c[0] += 1
                 if c[1] is not None and c[0] > c[1]:
                     raise _Budget()
+                if outer.after_snapshot:
+                    # the k-th look-up after ppid_map(): first let the scheduled kernel events happen,
+                    # then remember in which state this PID is examined
+                    outer.lookup_no += 1
+                    for ev in outer.events.pop(outer.lookup_no, []):
+                        outer.apply_event(ev)
+                    outer.lookups.setdefault(pid, outer.cur_rows.get(pid))
                 super().__init__(pid)
         self.Counting = Counting
+        self.after_snapshot = False
+        self.lookup_no = 0
+        self.events = {}
+        self.lookups = {}
+        self.cur_rows = {}
         self.monotone_ok = self._check_monotone()
 
     def _check_monotone(self):
@@ -116,8 +132,10 @@ class Impl:
     # ---- table on disk
     def set_table(self, rows):
         want = {}
+        self.cur_rows = {}
         for pid, ppid, start in rows:
-            want[pid] = render_stat(pid, comm_of(pid), b"S", ppid, PRE, start, POST)
+            want[pid] = render_stat(pid, comm_of(pid), state_of(pid), ppid, PRE, start, POST)
+            self.cur_rows[pid] = [pid, ppid, start]
         for pid in [p for p in self.cur if p not in want]:
             shutil.rmtree(self.fp.path(str(pid)), ignore_errors=True)
             del self.cur[pid]
@@ -125,6 +143,20 @@ class Impl:
             if self.cur.get(pid) != data:
                 self.fp.write("%d/stat" % pid, data)
                 self.cur[pid] = data
+
+    def apply_event(self, ev):
+        """one kernel event while the tree is walked: [pid, None] = the process exits,
+        [pid, [pid, ppid, start]] = the PID now belongs to this (new) process"""
+        pid, row = ev
+        if row is None:
+            shutil.rmtree(self.fp.path(str(pid)), ignore_errors=True)
+            self.cur.pop(pid, None)
+            self.cur_rows.pop(pid, None)
+        else:
+            data = render_stat(pid, comm_of(pid), state_of(pid), row[1], PRE, row[2], POST)
+            self.fp.write("%d/stat" % pid, data)
+            self.cur[pid] = data
+            self.cur_rows[pid] = list(row)
 
     def to_ticks(self, ct):
         return int(round((ct - BOOT) * self.ticks))
@@ -183,7 +215,20 @@ class Impl:
                     raise _Budget()
                 return real_parent(obj)
             ps.Process.parent = counted
-        if call in ("children", "children_rec") and case.get("t1") is not None:
+        self.after_snapshot = False
+        self.lookup_no = 0
+        self.lookups = {}
+        self.events = {}
+        if call in ("children", "children_rec") and case.get("events"):
+            for k, pid_, row in case["events"]:
+                self.events.setdefault(k, []).append([pid_, row])
+
+            def snap_dyn():
+                r = self.real_ppid_map()
+                self.after_snapshot = True
+                return r
+            ps._ppid_map = snap_dyn
+        elif call in ("children", "children_rec") and case.get("t1") is not None:
             t1 = case["t1"]
 
             def snap():
@@ -230,9 +275,20 @@ class Impl:
             signal.setitimer(signal.ITIMER_REAL, 0)
             signal.signal(signal.SIGALRM, old)
             self.counter[1] = None
+            self.after_snapshot = False
             self.plat.Process = self.RealProc
             ps.Process.parent = self.real_parent
             ps._ppid_map = self.real_ppid_map
+        if case.get("events"):
+            # the world in which each PID was examined: its state at its own look-up
+            # (PIDs never examined: their final state — irrelevant to the result)
+            t1 = []
+            pids = [r[0] for r in case["t0"]] + [e[1] for e in case["events"]]
+            for pid_ in dict.fromkeys(pids):
+                row = self.lookups[pid_] if pid_ in self.lookups else self.cur_rows.get(pid_)
+                if row is not None:
+                    t1.append(list(row))
+            extra["t1"] = t1
         return obs, running, extra
 
     # ---- one stat line
@@ -347,15 +403,18 @@ def min_pid(rows):
     return min(r[0] for r in rows) if rows else None
 
 
-def mk_case(call, pid, t0, mk=None, mid=None, t1=None, pids_call=None, family=""):
+def mk_case(call, pid, t0, mk=None, mid=None, t1=None, pids_call=None, family="", events=None):
     mk = t0 if mk is None else mk
     lowest = None
     if pids_call == "mk":
         lowest = min_pid(mk)
     elif pids_call == "t0":
         lowest = min_pid(t0)
-    return {"op": "tree", "call": call, "pid": pid, "mk": mk, "mid": mid, "lowest": lowest, "t0": t0, "t1": t1,
-            "pids_call": pids_call, "family": family}
+    c = {"op": "tree", "call": call, "pid": pid, "mk": mk, "mid": mid, "lowest": lowest, "t0": t0, "t1": t1,
+         "pids_call": pids_call, "family": family}
+    if events:
+        c["events"] = events
+    return c
 
 
 def history_variants(rng, rows, pid, family):
@@ -389,6 +448,16 @@ def history_variants(rng, rows, pid, family):
                 continue
             t1.append(x)
         out.append((rows, None, rows, t1, pc, "vanish"))
+    elif family == "vanish_during":
+        evs = []
+        for _ in range(rng.randrange(1, 4)):
+            x = rng.choice(others) if others else me
+            k = rng.randrange(1, len(rows) + 1)
+            if rng.random() < 0.7:
+                evs.append([k, x[0], None])
+            else:
+                evs.append([k, x[0], [x[0], x[1], max(0, x[2] + rng.choice([-3, -1, 1, 2]))]])
+        out.append((rows, None, rows, ("events", evs), pc, "vanish_during"))
     elif family == "stale_lowest":
         low = min(r0[0] for r0 in rows)
         mk = rows + [[0 if low > 0 else 61, 0, 0]] if low > 0 else rows
@@ -404,8 +473,8 @@ def history_variants(rng, rows, pid, family):
 
 
 TABLE_FAMILIES = ["forest", "cycle", "selfloop", "unlisted", "random", "large", "cycle", "random"]
-HIST_FAMILIES = ["plain", "plain", "vanish", "recycled_caller", "gone_caller", "gone_then_recycled",
-                 "stale_lowest", "plain", "vanish", "vanish"]
+HIST_FAMILIES = ["plain", "vanish_during", "vanish", "recycled_caller", "gone_caller", "gone_then_recycled",
+                 "stale_lowest", "plain", "vanish", "vanish_during"]
 
 
 def table_features(case):
@@ -433,8 +502,10 @@ def table_features(case):
         f.add("has_children")
     if case["pid"] in pp and any(pp[p] == me and st[p] < st[me] for p in pp if p != me):
         f.add("older_child")
-    if case.get("t1") is not None:
+    if case.get("t1") is not None or case.get("events"):
         f.add("vanish")
+    if case.get("events"):
+        f.add("vanish_during_walk")
     if case["mk"] != case["t0"] or case.get("mid") is not None:
         f.add("history")
     if len(rows) > 12:
@@ -513,12 +584,17 @@ def run_cases(ctx, impl, cases, res, source, record=True):
     """Drive model (one batch) and implementation over `cases`; → list of verdicts."""
     if not cases:
         return []
+    ran = []
+    for c in cases:
+        obs, running, extra = impl.run_case(c)
+        if "t1" in extra:
+            c["t1"] = extra["t1"]          # events: the look-up world is known only after the run
+        ran.append((obs, running, extra))
     outs = ctx.driver().batch([strip(c) for c in cases])
     verdicts = []
-    for c, m in zip(cases, outs):
+    for c, m, (obs, running, extra) in zip(cases, outs, ran):
         if "bad" in m:
             raise RuntimeError("driver rejected %r: %s" % (c, m))
-        obs, running, extra = impl.run_case(c)
         verdicts.append(judge(c, obs, running, extra, m, res, source, record))
     return verdicts
 
@@ -615,7 +691,8 @@ def correspond(ctx, res):
     impl = Impl(ctx)
     try:
         res.rule = ("process tables from 6 table families (forest, cycle, self-loop, unlisted parents, random, large) × "
-                    "8 history families (plain, vanish/recycle during the walk, recycled caller, gone caller, gone-then-"
+                    "9 history families (plain, table switched right after ppid_map(), kernel events scheduled at "
+                    "individual look-ups during the walk, recycled caller, gone caller, gone-then-"
                     "recycled, reuse seen by is_running, stale _LOWEST_PID) × the four calls, PRNG from VERIF_SEED; plus "
                     "an exhaustive sweep of small tables and of short comm strings; non-trivial = the table has a cycle, "
                     "self-loop, tie, younger parent, unlisted parent, a history or a vanishing process, or the caller has "
@@ -649,7 +726,13 @@ def correspond(ctx, res):
                     for call in CALLS:
                         if t1 is not None and call in ("parent", "parents"):
                             continue
-                        cases.append(mk_case(call, pid, t0, mk=mk, mid=mid, t1=t1, pids_call=pc, family=tf + "/" + tag))
+                        evs = None
+                        if isinstance(t1, tuple):
+                            evs, t1_ = [list(e) for e in t1[1]], None
+                        else:
+                            t1_ = t1
+                        cases.append(mk_case(call, pid, t0, mk=mk, mid=mid, t1=t1_, pids_call=pc,
+                                             family=tf + "/" + tag, events=evs))
                         tags.append(tf + "/" + tag)
         n_rand = len(cases)
         # ---- exhaustive small tables
@@ -684,7 +767,7 @@ def correspond(ctx, res):
                 for f in feats:
                     res.count("feature:" + f)
                 res.count("table_size:%s" % ("1-3" if len(c["t0"]) <= 3 else "4-8" if len(c["t0"]) <= 8 else "9-40"))
-                res.case((c["call"], c["pid"], c["mk"], c["mid"], c["t0"], c["t1"], c["lowest"]), nontrivial=bool(feats),
+                res.case((c["call"], c["pid"], c["mk"], c["mid"], c["t0"], c["t1"], c["lowest"], c.get("events")), nontrivial=bool(feats),
                          sample={"family": fam, "case": strip(c)} if (a + j) in (0, 1, 30, 41, 77) else None)
         # ---- stat lines
         slines = stat_cases(ctx.rng, ctx.n(300, 20000))
@@ -745,6 +828,9 @@ def _drop(case, pids):
     c = dict(case)
     for k in ("mk", "mid", "t0", "t1"):
         c[k] = f(case[k])
+    if case.get("events"):
+        c["events"] = [e for e in case["events"] if e[1] not in pids or e[1] == case["pid"]]
+        c["t1"] = None
     if c.get("pids_call") == "mk":
         c["lowest"] = min_pid(c["mk"])
     elif c.get("pids_call") == "t0":
